@@ -1,4 +1,4 @@
-"""C07 — The opening handshake admits exactly the valid peers and never crashes (client side of the response check).
+"""C07 — The opening handshake admits exactly the valid peers and never crashes (both processHandshake functions).
 
 HTTP text handling is modelled soundly but coarsely: strip / lower / split are functions of their arguments about which
 only length facts are known (pyvc.natives.str_split), SHA-1 and base64 are uninterpreted.  That is enough to prove the
@@ -19,10 +19,11 @@ ASSUMPTIONS = [
     "user callbacks (_onConnect through txaio.as_future) do not run synchronously inside the unit",
 ]
 LEVEL = "other"
-NOT_COVERED = ["the server side (WebSocketServerProtocol.processHandshake: request validation chain, origin policy, "
-               "connection limit, succeedHandshake)", "client request construction (_actuallyStartHandshake, parse_url / "
-               "create_url)", "parseHttpHeader itself", "responses with a Sec-WebSocket-Extensions header",
-               "sufficiency: that every RFC-valid response is accepted (string functions are over-approximated)"]
+NOT_COVERED = ["sufficiency: that every RFC-valid request / response is accepted (text functions are over-approximated)",
+               "the origin policy functions _url_to_origin / _is_same_origin / wildcards2patterns themselves",
+               "succeedHandshake (response construction), request construction (_actuallyStartHandshake, parse_url / "
+               "create_url)", "parseHttpHeader itself", "Sec-WebSocket-Extensions handling (C12)",
+               "X-Forwarded-For handling, the Flash policy branch"]
 P = "autobahn.websocket.protocol"
 CLI = P + ":WebSocketClientProtocol"
 sha1_f = z3.Function("sha1", BytesSort, BytesSort)
